@@ -365,6 +365,9 @@ func (m *c11Machine) Classify() (bool, []string) {
 	if passedProposals(m.r0) > 0 {
 		cl = append(cl, "params-changed-by-proposal")
 	}
+	if m.h.w.contention > 0 {
+		cl = append(cl, "poor-consumer-contention")
+	}
 	if len(m.h.w.ctxs) > 0 {
 		cl = append(cl, "service-context")
 	}
@@ -396,7 +399,6 @@ func TestC11(t *testing.T) {
 		}
 	}
 }
-
 
 // passedProposals counts governance proposals that passed (and therefore executed their parameter update).
 func passedProposals(n *chain.Node) int {
